@@ -197,7 +197,7 @@ __CPROVER_ensures(self->WorkerIndices.size == __CPROVER_old(self->WorkerIndices.
                   self->WorkerIndices.gpresent == __CPROVER_old(self->WorkerIndices.gpresent) && self->WorkerIndices.gval == __CPROVER_old(self->WorkerIndices.gval))
 //@end
 
-//@harness h_order_worker enforce=MPIMaster_order_worker props=C16 min_obl=905 reach=3 timeout=120
+//@harness h_order_worker enforce=MPIMaster_order_worker props=C16 min_obl=901 reach=3 timeout=120
 void h_order_worker(void)
 {
   struct MPIMaster *m; int worker, job;
@@ -260,7 +260,7 @@ __CPROVER_loop_invariant(MPI_n_outstanding >= 0 && MPI_n_outstanding <= (long)se
 __CPROVER_decreases(self->WorkerStack.size)
 //@end
 
-//@harness h_order enforce=MPIMaster_order props=C16 min_obl=1765 reach=3 timeout=300
+//@harness h_order enforce=MPIMaster_order props=C16 min_obl=1761 reach=3 timeout=300
 void h_order(void)
 {
   struct MPIMaster *m;
@@ -315,7 +315,7 @@ __CPROVER_loop_invariant((unsigned long)((long)p + 1) == self->Nprocs || self->W
 __CPROVER_decreases((long)p + 1)
 //@end
 
-//@harness h_fill_stack enforce=MPIMaster_fill_stack_ props=C16 min_obl=1236 reach=2 timeout=120
+//@harness h_fill_stack enforce=MPIMaster_fill_stack_ props=C16 min_obl=1232 reach=2 timeout=120
 void h_fill_stack(void)
 {
   struct MPIMaster *m;
@@ -723,7 +723,7 @@ __CPROVER_loop_invariant(MPI_bcast_gidx >= MPI_bcast_len[0] || (i <= MPI_bcast_g
 __CPROVER_decreases(jobs.size - i)
 //@end
 
-//@harness h_run_disseminate_worker enforce=run_disseminate_worker props=C16 min_obl=430 reach=2 timeout=60
+//@harness h_run_disseminate_worker enforce=run_disseminate_worker props=C16 min_obl=426 reach=2 timeout=60
 void h_run_disseminate_worker(void)
 {
   struct mpi_skel *s; Comm *c; unsigned long *root; IntMap *jm;
